@@ -29,17 +29,20 @@ Section paging.
     let items := List.filter (fun p => in_range start hi (fst p)) l in
     (firstn size items, match skipn size items with x :: _ => fst x | [] => [] end).
 
-  (* "/transfer/from/" and the end key prefix + utf8.MaxRune (F4 8F BF BF) *)
+  (* "/transfer/from/" and the end key: the prefix with its last byte incremented, "/transfer/from0"
+     (until the repair F22 the end key was prefix + utf8.MaxRune, F4 8F BF BF: [maxrune] is kept to state what
+     that range missed) *)
   Definition pfx : list N := [47; 116; 114; 97; 110; 115; 102; 101; 114; 47; 102; 114; 111; 109; 47]%N.
+  Definition pfx_end : list N := [47; 116; 114; 97; 110; 115; 102; 101; 114; 47; 102; 114; 111; 109; 48]%N.
   Definition maxrune : list N := [244; 143; 191; 191]%N.
 
   Inductive qerr := QPageSize | QBookmark.
   Definition query (l : list kv) (size : Z) (bm : list N) : qerr + (list kv * list N) :=
     if (size <=? 0)%Z then inl QPageSize
     else match bm with
-         | _ :: _ => if has_prefix pfx bm then inr (page l pfx (pfx ++ maxrune) (Z.to_nat size) bm)
+         | _ :: _ => if has_prefix pfx bm then inr (page l pfx pfx_end (Z.to_nat size) bm)
                      else inl QBookmark
-         | [] => inr (page l pfx (pfx ++ maxrune) (Z.to_nat size) bm)
+         | [] => inr (page l pfx pfx_end (Z.to_nat size) bm)
          end.
 
   (* follow the returned bookmarks from the empty bookmark *)
